@@ -196,7 +196,8 @@ def draw_plan(rng: random.Random, prop: str, tier: str = "quick", methods=None, 
             ops = [{"op": "build", "mgr": "A", "order": order, "decoys": [], "cfg_key": "variant"}, {"op": "find", "mgr": "A"},
                    {"op": "reconf", "mgr": "A", "to": "base"}, {"op": "pristine", "mgr": "A"}]
         else:
-            ops = [{"op": "other", "cfg_key": "variant"}, {"op": "build", "mgr": "A", "order": order, "decoys": decoys, "cfg_key": "base"},
+            ops = [{"op": "other", "cfg_key": "variant"}, {"op": "other", "cfg_key": "variant2"},
+                   {"op": "build", "mgr": "A", "order": order, "decoys": decoys, "cfg_key": "base"},
                    {"op": "find", "mgr": "A"}, {"op": "pristine", "mgr": "A"}]
     elif prop == "C13" and any(o["op"] in ("other", "reconf") for o in ops) and rng.random() < 0.5:
         # histories in which a process-global leak is plausible end with a comparison against a pristine interpreter
@@ -213,7 +214,8 @@ def draw_plan(rng: random.Random, prop: str, tier: str = "quick", methods=None, 
                     "rewrite": rng.random() < 0.35})
     if prop == "C20" and not any(o["op"] == "twin" for o in ops):
         ops.append({"op": "twin", "mgr": "A"})
-    return {"engine": "E1", "property": prop, "cfg": cfg, "cfg2": cfg2, "variant": variant, "ops": ops,
+    variant2 = make_variant(rng, cfg, k=1)
+    return {"engine": "E1", "property": prop, "cfg": cfg, "cfg2": cfg2, "variant": variant, "variant2": variant2, "ops": ops,
             "clock": {"start": float(rng.randrange(0, 10 ** 8)), "step": rng.choice([0.25, 1.0, 1800.0])}}
 
 
@@ -273,7 +275,7 @@ def make_variant(rng: random.Random, cfg: dict, k=None) -> dict:
 
 
 def plan_cfg(plan: dict, key: str) -> dict:
-    c = plan["cfg"] if key in (None, "base") else plan[key if key != "variant" else "variant"]
+    c = plan["cfg"] if key in (None, "base") else plan[key]
     c = {k: v for k, v in c.items() if k not in ("variant_of", "target")}
     return c
 
@@ -802,7 +804,7 @@ def op_abort_find(ctx: Ctx, i, op):
 
 def op_other(ctx: Ctx, i, op):
     cfg2 = plan_cfg(ctx.plan, op.get("cfg_key") or "cfg2")
-    if op.get("cfg_key") == "variant":
+    if str(op.get("cfg_key")).startswith("variant"):
         ctx.bump("probe:near_identical_design_ran_in_between")
     try:
         with Quiet():
